@@ -719,6 +719,32 @@ func (e *SpecEnv) eval(x ast.Expr) Val {
 			return c.listElem(e.st, b, i.T)
 		}
 		panic(unsupported{fmt.Sprintf("contract: index on %T", base)})
+	case *ast.CompositeLit:
+		// pkg.T{} : the zero value of a struct type of an imported package
+		if len(n.Elts) == 0 {
+			if sel, ok := n.Type.(*ast.SelectorExpr); ok {
+				if id, ok := sel.X.(*ast.Ident); ok {
+					look := func(p *types.Package) Val {
+						if p != nil && p.Name() == id.Name {
+							if tn, ok := p.Scope().Lookup(sel.Sel.Name).(*types.TypeName); ok {
+								v := c.zeroValue(tn.Type())
+								if sv, ok := v.(StructV); ok {
+									sv.T = tn.Type()
+									return sv
+								}
+								return v
+							}
+						}
+						return nil
+					}
+					for _, imp := range c.pkg.Types.Imports() {
+						if v := look(imp); v != nil {
+							return v
+						}
+					}
+				}
+			}
+		}
 	}
 	panic(unsupported{"contract: unsupported expression " + types.ExprString(x)})
 }
